@@ -230,6 +230,16 @@ func interactionPrograms() []string {
 		out = append(out, fmt.Sprintf(`r = catch(func() {for i = %s:%s + 1 {println(i, i + 1, i - 1, -i)}}()); println(r.err)`, v, v))
 		out = append(out, fmt.Sprintf(`r = catch(func() {for i = %s - 1:%s {n = i; ++n; println(i, n)}}()); println(r.err)`, v, v))
 	}
+	// (O) code that names a register-held variable and outlives it (a stored quote, a function value, an error text), looked at
+	//     after other loops / calls with other variable names have used the same register
+	for _, keep := range []string{"q = quote(V + 1)", "q = quote([V, V * 2])", "q = [quote(V)]", `q = {"k": quote(-V)}`, "q = quote(func() {V})", "q = quote(V); q2 = quote(V + V)", `q = "ERRTEXT " + catch(V + nil).value`} {
+		for _, later := range []string{"for j = 2 {}", "for j = 2 {for k = 2 {}}", "for k = 3 {r = quote(k - 1)}", "g = func(m) {m}; g(1)", "for jj = 1:3 {jj}", "for j = 2 {q3 = quote(j)}", "g = func(a, b) {quote(a + b)}; q4 = g(1, 2)"} {
+			out = append(out, fmt.Sprintf("for i = 2 {%s}; %s; println(q)", strings.ReplaceAll(keep, "V", "i"), later))
+			out = append(out, fmt.Sprintf("f = func() {for i = 2 {%s}; %s; q}; println(f())", strings.ReplaceAll(keep, "V", "i"), later))
+			out = append(out, fmt.Sprintf("f = func(n) {%s; q}; x = f(3); %s; println(x); h = func(other) {other}; h(5); println(x)", strings.ReplaceAll(keep, "V", "n"), later))
+			out = append(out, fmt.Sprintf("for i = 2 {for i2 = 2 {%s}}; %s; println(q)", strings.ReplaceAll(keep, "V", "i2"), later))
+		}
+	}
 	// containers reached through references
 	for _, a := range []string{"x[0] = 5", `x.k = 5`, "del(x[0])", "x = x + 1", "x = x + x", "del(x)"} {
 		for _, init := range []string{"[1, 2, 3]", `{"k": 1, 0: 2}`, "1:12", `{1: 1, 2: 2, 3: 3, 4: 4, 5: 5}`} {
